@@ -28,7 +28,7 @@ m = {
  "engines": [{"name": "pyvc", "path": "/verif/pyvc", "serves_properties": [c["property_id"] for c in checks],
               "kind_free_text": "contract-based deductive verification: VC generation by symbolic execution of the real, freshly compiled coxeter sources over symbolic scalars and arrays with symbolic extents (generic row), sidecar contracts, discharge by exact polynomial normal forms (sympy) and z3 (cvc5 second opinion); bounded stand-ins with exact oracles where labelled"}],
  "checks": checks,
- "notes": "see DESIGN.md; known defects of the unchanged tree are listed in known_findings.json",
+ "notes": "see DESIGN.md (section 0: verdict table; 5: per-property contracts; 8: defects found and fixed; 9: corrected false alarms; 10: 80 seeded changes, all caught by the property's own check); open known findings and fixed defects are listed in known_findings.json; ./check <ID> --tier quick|thorough, exit 0 held / 1 violation / 3 checker error, undecided obligations are printed as UNDECIDED and never as violations",
  "not_applicable": na,
 }
 json.dump(m, open(os.path.join(root, "MANIFEST.json"), "w"), indent=1)
